@@ -870,12 +870,12 @@ func (x *explorer) step(s *PState) []succ {
 		}
 		bodyOK, doneOK := true, true
 		if n.First {
-			if s.Facts["NE:"+key] || (xr.Op == "list" && len(xr.Args) > 0) {
+			if s.Facts["NE:"+key] || emptiness(xr) == -1 {
 				doneOK = false
 			}
-			if xr.Op == "list" && len(xr.Args) == 0 {
-				bodyOK = false
-			}
+		}
+		if emptiness(xr) == 1 {
+			bodyOK = false
 		}
 		var out []succ
 		if bodyOK {
